@@ -101,10 +101,12 @@ package meta
 //@   trusted
 //@   assigns nothing
 //@   ensures result != nil ==> solid(result)
+//@ pure origModOf(m Meta) *Module
 //@ func OriginalModule(m Meta) *Module
 //@   trusted
 //@   assigns nothing
-//@   ensures result != nil
+//@   noalloc
+//@   ensures result != nil && result == origModOf(m)
 
 // a compiled list knows the leafs that make up its key (the compiler fails on a key name it cannot resolve)
 //@ func (y *List) KeyMeta() []Leafable
